@@ -33,6 +33,16 @@ def plan(ctx):
                           encodes=["RateEncoder::reset / RateDecoder::reset", "Rate::validate"],
                           bounds="none on the arguments (three 64-bit usize)", flags=FULL, timeout=900, mem_gb=6,
                           symbolic="original_count, recovery_count, shard_bytes"))
+    RV = FULL + ["-Z", "restrict-vtable"]
+    for n, what in (("rs_dec_index_calls_2_1", "ReedSolomonDecoder (2,1): two add_original and one add_recovery call with unbounded symbolic indexes (correct length), each Result exact (Ok / Invalid*ShardIndex / DuplicateOriginalShardIndex)"),
+                    ("rs_dec_index_calls_1_2", "ReedSolomonDecoder (1,2): the same three calls"),
+                    ("rs_enc_add_calls_2_1", "ReedSolomonEncoder (2,1): valid add, wrong-length add (DifferentShardSize exact), surplus add (TooManyOriginalShards exact)"),
+                    ("rs_reset_class_dec_c9", "ReedSolomonDecoder holding a shard: reset(supported counts, shard size 3) is a truthful Err and the next add does not panic"),
+                    ("rs_reset_class_enc_c0", "ReedSolomonEncoder holding a shard: reset(original_count = 0, ...) is a truthful Err and the next add does not panic")):
+        hs.append(Harness(f"c06::{n}", "C06", what + " (top-level API = DefaultRate over DefaultEngine, feature mask 0, dummy tables)",
+                          encodes=["ReedSolomonEncoder/ReedSolomonDecoder::{new, add_*_shard, reset}", "DefaultEngine::new"], bounds="index/arguments 64-bit symbolic; 2-byte shards; unwind 20",
+                          flags=RV, timeout=1200, mem_gb=10, symbolic="indexes / configuration arguments, shard bytes",
+                          tiers=("quick", "thorough") if n in ("rs_dec_index_calls_2_1", "rs_reset_class_dec_c9") else ("thorough",)))
     fam = families.c06_family()
     # decode patterns: quick = per codec one not-enough, the complete one, and two seed-chosen sufficient ones
     by_codec = {}
@@ -79,6 +89,6 @@ def plan(ctx):
                              "documented preconditions transcribed into the harness (index < count, not duplicate, length == shard_bytes, enough shards)"],
                 outside=["more than 3 add calls per symbolic-index harness", "counts beyond (4,4)", "shards longer than 6 bytes", "allocation failure",
                          "reset classes other than the 11 listed for the default-rate codecs (dedicated codecs: fully symbolic)",
-                         "ReedSolomonEncoder/Decoder and one-shot functions: C09/C10",
+                         "one-shot functions: C10; encode()/decode() on ReedSolomon*/DefaultRate objects; symbolic shard lengths and fully symbolic constructor arguments on ReedSolomon* objects (out of memory; decided on the dedicated and DefaultRate<NullEngine> codecs)",
                          "complete rounds on DefaultRate codecs (enum payload defeats CBMC constant propagation; measured > 15 min for one (2,1) round): their error paths are covered here, their delegation by C09"],
                 trusted_base=COMMON_TRUSTED)
